@@ -133,7 +133,27 @@ pub fn worker(
 ) {
     crate::fmt::install_panic_hook();
     limit_memory(6 << 30);
-    let units = prop.units(tier);
+    // Units come from the shard file written by the master (one JSON line per unit: the worker holds one
+    // unit at a time); without one (developer use) they are generated here.
+    let shard_file = std::env::var("VERIF_SHARD_DIR").ok().map(|d| format!("{d}/shard{shard}.jsonl"));
+    let mut gen_units: Vec<Unit> = vec![];
+    let unit_iter: Box<dyn Iterator<Item = (usize, Unit)>> = match &shard_file {
+        Some(f) => {
+            let rd = BufReader::new(std::fs::File::open(f).expect("open shard file"));
+            Box::new(rd.lines().filter_map(|l| {
+                let l = l.ok()?;
+                let v: Value = serde_json::from_str(&l).ok()?;
+                let i = v["i"].as_u64()? as usize;
+                let u: Unit = serde_json::from_value(v["u"].clone()).ok()?;
+                Some((i, u))
+            }))
+        }
+        None => {
+            gen_units = prop.units(tier);
+            Box::new(std::mem::take(&mut gen_units).into_iter().enumerate())
+        }
+    };
+    let _ = &gen_units;
     // the subject may print to the process's stdout (echo of skipped standard input, diff emitter):
     // keep the protocol on a private descriptor and send fd 1 to /dev/null
     let proto_fd = unsafe {
@@ -171,7 +191,8 @@ pub fn worker(
             }
         });
     }
-    for (i, u) in units.iter().enumerate() {
+    for (i, u) in unit_iter {
+        let u = &u;
         if i % nshards != shard || skip.contains(&i) || after.map_or(false, |a| i <= a) {
             continue;
         }
@@ -285,7 +306,25 @@ pub struct RunResult {
 
 /// Spawn `n` workers of ourselves, collect their streams; a worker that dies
 /// is restarted past the unit it was working on (recorded in `crashed_units`).
-pub fn run_sharded(prop_id: &str, tier: Tier, nshards: usize, nunits: usize) -> RunResult {
+/// Write the units round-robin into `nshards` files of JSON lines under `dir`.
+pub fn write_shards(units: &[Unit], nshards: usize, dir: &str) -> std::io::Result<()> {
+    std::fs::create_dir_all(dir)?;
+    let mut files = vec![];
+    for k in 0..nshards {
+        files.push(std::io::BufWriter::new(std::fs::File::create(format!("{dir}/shard{k}.jsonl"))?));
+    }
+    for (i, u) in units.iter().enumerate() {
+        let f = &mut files[i % nshards];
+        serde_json::to_writer(&mut *f, &json!({"i": i, "u": u}))?;
+        f.write_all(b"\n")?;
+    }
+    for mut f in files {
+        f.flush()?;
+    }
+    Ok(())
+}
+
+pub fn run_sharded(prop_id: &str, tier: Tier, nshards: usize, nunits: usize, shard_dir: Option<&str>) -> RunResult {
     let start = Instant::now();
     let exe = std::env::current_exe().unwrap();
     let mut res = RunResult {
@@ -327,6 +366,9 @@ pub fn run_sharded(prop_id: &str, tier: Tier, nshards: usize, nunits: usize) -> 
                             .arg(done_upto.map(|d| d.to_string()).unwrap_or_default())
                             .stdout(Stdio::piped())
                             .stderr(Stdio::null());
+                        if let Some(d) = shard_dir {
+                            cmd.env("VERIF_SHARD_DIR", d);
+                        }
                         let mut child = cmd.spawn().expect("spawn worker");
                         let rd = BufReader::new(child.stdout.take().unwrap());
                         let mut last_begin: Option<usize> = None;
